@@ -22,7 +22,8 @@ Readings adopted where the statement leaves room (a false alarm is worse than a 
     BoundedStream (the middleware's one-byte-sentinel branch reads 0 bytes): modelled as it is, not flagged.
   * "undecodable" = no complete valid gzip member / zstd frame at the start of the body, judged by the libraries'
     whole-input decoders (zlib.decompressobj(...).eof, zstandard decompressobj().eof); trailing bytes after a
-    complete member / frame are tolerated (the code ignores them).  The demand on an undecodable body is on the
+    complete member / frame make the case unspecified (one-shot zstd ignores them, the zstd stream reader decodes
+    on into them; only safety -- status set, materialisation bound, termination -- is demanded).  The demand on an undecodable body is on the
     observable the statement names: the final HTTP status must be 400 (413 is accepted when the frame declares,
     or the decodable prefix already exceeds, the cap).  A prefix that reaches the RPC layer and is answered 400
     there is tolerated by the oracle (python-zstandard decodes a frame declaring 0 bytes as b"" unchecked).
@@ -322,7 +323,7 @@ def run(ctx: Any) -> None:
                 viol(
                     "gzip-trailing-data-spins-forever",
                     "the gzip decode loop never terminates: after the end-of-stream marker do.decompress(unconsumed_tail, n) returns b'' "
-                    "and keeps the trailing input in unconsumed_tail (aborted by the harness after 2000 idle iterations)",
+                    "and keeps the trailing input in unconsumed_tail (aborted by the harness after 20 idle iterations)",
                     case, {"idle_iterations": tr.idle, "codec_calls_tail": tr.log[-4:]},
                 )
                 continue
@@ -352,8 +353,10 @@ def run(ctx: Any) -> None:
                 if not (refused and (obs.status == 415 or (over_wire and obs.status == 413))):
                     viol("unknown-or-disabled-coding-not-415", "unknown / disabled coding was not refused with 415", case, extra)
             else:
-                rk, out, declared = drv.ref_decode(coding, wire)
-                if over_wire:
+                rk, out, declared, trailing = drv.ref_decode(coding, wire)
+                if rk == "ok" and trailing:
+                    ctx.tally("class", "trailing-data(unspecified)")
+                elif over_wire:
                     ctx.tally("class", "coded-wire-over")
                     if not (refused and (obs.status == 413 or (rk != "ok" and obs.status == 400))):
                         viol("wire-over-cap-not-413", "coded body larger than the cap on the wire was not refused with 413", case, extra)
@@ -398,7 +401,7 @@ def run(ctx: Any) -> None:
             inp = (
                 f"(({copt(None if cap is None else cN(cap))}, true, {cbool(zd)}, {cN(chunk)}, {flags}), "
                 f"({copt(None if cl_env is None else cN(cl_env))}, {B(stream)}, {ce_term}), "
-                f"(({hdr}, {ob(tr.one)}), ({steps}, {ob(tr.fl)}), ({ob(tr.ra)}, {ob(tr.ra_fl)}, {cbool(tr.eof)})))"
+                f"(({hdr}, {ob(tr.one)}), ({steps}, {ob(tr.fl)}, {cbool(tr.eof)}), ({ob(tr.ra)}, {ob(tr.ra_fl)}, {cbool(tr.eof)})))"
             )
             st = obs.status if refused else 0
             out_t = f"(({cN(st)}, {copt(None if refused else B(obs.delivered))}), ([" + "; ".join(f"({a}, {b})" for a, b in tr.log) + f"], {cN(tr.mat)}))"
